@@ -9,6 +9,7 @@ import (
 	"sort"
 	"strings"
 	"testing"
+	"time"
 
 	"pgregory.net/rapid"
 
@@ -27,17 +28,36 @@ func violationf(sig, format string, args ...any) outcome {
 	return outcome{msg: fmt.Sprintf(format, args...), sig: sig}
 }
 
-// guard runs f and converts a panic inside the code under test into an error string.
+// hangLimit bounds a single call into the library. Typical calls take microseconds; a call that has
+// not returned after this long is reported as a hang (termination properties need some bound).
+var hangLimit = time.Duration(vstat.EnvInt("VERIF_HANG_S", 20)) * time.Second
+
+// guard runs f (a call into the code under test) on its own goroutine, converts a panic into an
+// error string and reports a call that does not return within hangLimit as "HANG: ...".
 func guard(f func()) (panicMsg string) {
-	defer func() {
-		if r := recover(); r != nil {
-			st := string(debug.Stack())
-			panicMsg = fmt.Sprintf("panic: %v\n%s", r, trimStack(st))
-		}
+	done := make(chan string, 1)
+	go func() {
+		msg := ""
+		defer func() {
+			if r := recover(); r != nil {
+				st := string(debug.Stack())
+				msg = fmt.Sprintf("panic: %v\n%s", r, trimStack(st))
+			}
+			done <- msg
+		}()
+		f()
 	}()
-	f()
-	return ""
+	timer := time.NewTimer(hangLimit)
+	defer timer.Stop()
+	select {
+	case msg := <-done:
+		return msg
+	case <-timer.C:
+		return fmt.Sprintf("HANG: the call did not return within %v", hangLimit)
+	}
 }
+
+func isHang(msg string) bool { return strings.HasPrefix(msg, "HANG:") }
 
 func trimStack(st string) string {
 	lines := strings.Split(st, "\n")
@@ -66,6 +86,14 @@ func report(t *rapid.T, r *vstat.Run, o outcome, c any) {
 		return
 	}
 	r.NoteFailure(o.msg, o.sig, c)
+	if strings.Contains(o.msg, "HANG:") {
+		// a goroutine is still spinning inside the library: shrinking would hang again and again, so the
+		// unshrunk case is saved and the process ends here
+		r.Freeze()
+		r.SaveViolation()
+		r.Flush()
+		os.Exit(1)
+	}
 	t.Fatalf("%s", o.msg)
 }
 
